@@ -368,13 +368,16 @@ impl PcieRootComplex {
         pri: bool,
         id_mappings: Option<Vec<IdMapping>>,
     ) -> Self {
-        Self {
+        let rc = Self {
             id,
             pci_segment,
             ats,
             pri,
             id_mappings,
-        }
+        };
+        // The device length is a 16-bit field.
+        assert!(rc.len() <= u16::MAX as usize);
+        rc
     }
 
     fn u8sum(&self) -> u8 {
